@@ -60,6 +60,7 @@ struct WHarness: public Harness<I>{
 	}
 
 	bool wvalid(std::string const& op, std::vector<std::size_t> const& a){
+		if(op == "reset") return a.empty();
 		static const char* ok[] = {"new", "repart", "splitb", "splitat", "splice", "append", "subset", "shuffle", "copy",
 		                           "swap", "indep", "rrepart", "rsplitb", "rsplitat", "rsplice"};
 		bool found = false; for(const char* o: ok) if(op == o) found = true;
@@ -93,6 +94,7 @@ struct WHarness: public Harness<I>{
 	std::string wexec(std::string const& op0, std::vector<std::size_t> const& a){
 		bool raw = op0 == "rrepart" || op0 == "rsplitb" || op0 == "rsplitat" || op0 == "rsplice";
 		std::string op = raw ? op0.substr(1) : op0;
+		if(op == "reset"){ for(std::size_t k = 0; k != 4; ++k){ wd[k] = WDS(); this->sh[k].clear(); } return ""; }
 		if(op == "indep"){ wd[a[0]].makeIndependent(); return ""; }
 		if(op == "swap"){ swap(wd[a[0]], wd[a[1]]); std::swap(this->sh[a[0]], this->sh[a[1]]); return ""; }
 		if(op == "new"){
